@@ -8,13 +8,15 @@
    [r_owners r], the Values list of every declaration [r_values r "<declaring (sub)module>:<name>"] and the
    errors [r_errors r].  The third loop is the real one: the closure of an identity is computed from whatever
    Values lists it meets, some already replaced by their closure and some still holding direct children only,
-   depending on o3; a submodule's identity filed under two revisions is closed twice.
+   depending on o3; a submodule's identity filed under two revisions has its bases resolved within each of
+   them (so it is derived from both revisions' bases) and is closed twice.
 
    [derived], [resolves], [declares], [filed], [consistent], [links_ok], [all_resolve], [acyclic],
    [sorted_keys], [is_oracle] are in Spec/C11.v; [wf_schema] (no two loaded nodes of one kind, name and
    revision: what Modules.add enforces) in Proofs/IdentityProofs.v.  The graph is read off the dictionary and
-   the owners table, g = dict_get (r_dict r), ow = owners_get (r_owners r); C11_dictionary says which
-   function of the schema the dictionary is. *)
+   the owners tables, g = dict_get (r_dict r), ow = owners_get (r_owners r), ko = dict_get (r_key_owners r)
+   (the owner recorded with each dictionary entry); C11_dictionary, C11_owners, C11_key_owner say which
+   functions of the schema these are. *)
 From Coq Require Import Ascii String List Bool Arith Relations Permutation.
 From GY Require Import Model.Identity Spec.C11 Proofs.IdentityProofs.
 Import ListNotations.
@@ -54,13 +56,13 @@ Proof. exact values_nodup. Qed.
 (* T1 (b): Values b is exactly the set of declarations that reach b through one or more base statements *)
 Theorem C11_exact : forall sc o2 o3 r, is_oracle o2 -> is_oracle o3 ->
   resolve_identities o2 o3 sc = Some r ->
-  forall b x, In x (r_values r b) <-> derived sc (dict_get (r_dict r)) (owners_get (r_owners r)) b x.
+  forall b x, In x (r_values r b) <-> derived sc (dict_get (r_dict r)) (owners_get (r_owners r)) (dict_get (r_key_owners r)) b x.
 Proof. exact values_exact. Qed.
 
 (* T1 (c): never the identity itself, unless it is derived from itself (which T3 reports) *)
 Theorem C11_never_itself : forall sc o2 o3 r, is_oracle o2 -> is_oracle o3 ->
   resolve_identities o2 o3 sc = Some r ->
-  forall b, ~ derived sc (dict_get (r_dict r)) (owners_get (r_owners r)) b b -> ~ In b (r_values r b).
+  forall b, ~ derived sc (dict_get (r_dict r)) (owners_get (r_owners r)) (dict_get (r_key_owners r)) b b -> ~ In b (r_values r b).
 Proof. exact values_not_self. Qed.
 
 Theorem C11_lists_identities : forall sc o2 o3 r, is_oracle o2 -> is_oracle o3 ->
@@ -87,7 +89,7 @@ Proof. exact strict_sorted_unique. Qed.
 Theorem C11_schema_alone : forall sc o2 o3 o2' o3' r r',
   is_oracle o2 -> is_oracle o3 -> is_oracle o2' -> is_oracle o3' ->
   resolve_identities o2 o3 sc = Some r -> resolve_identities o2' o3' sc = Some r' ->
-  r_dict r = r_dict r' /\ r_owners r = r_owners r' /\
+  r_dict r = r_dict r' /\ r_owners r = r_owners r' /\ r_key_owners r = r_key_owners r' /\
   (forall b, r_values r b = r_values r' b) /\
   (r_errors r = [] <-> r_errors r' = []).
 Proof. exact oracle_independent. Qed.
@@ -113,6 +115,18 @@ Theorem C11_dictionary_complete : forall sc o2 o3 r, wf_schema sc -> is_oracle o
   resolve_identities o2 o3 sc = Some r ->
   forall k e, filed sc k e -> exists e', dict_get (r_dict r) k = Some e' /\ filed sc k e'.
 Proof. exact dictionary_complete. Qed.
+
+(* the owner recorded with a key -- the revision as part of which the bases of the entry are read -- is a
+   module revision the key is a key of *)
+Theorem C11_key_owner : forall sc o2 o3 r, wf_schema sc -> is_oracle o2 -> is_oracle o3 ->
+  resolve_identities o2 o3 sc = Some r ->
+  forall k o, dict_get (r_key_owners r) k = Some o -> key_owner_of sc k o.
+Proof. exact key_owner_run_sound. Qed.
+
+Theorem C11_key_owner_complete : forall sc o2 o3 r, wf_schema sc -> is_oracle o2 -> is_oracle o3 ->
+  resolve_identities o2 o3 sc = Some r ->
+  forall k o, key_owner_of sc k o -> exists o', dict_get (r_key_owners r) k = Some o' /\ key_owner_of sc k o'.
+Proof. exact key_owner_run_complete. Qed.
 
 (* the module revisions a visible (sub)module's identities are filed under -- the list identities.find searches
    for a name without prefix -- are the owners for the revisions whose whole module it is part of (the order of
@@ -142,7 +156,7 @@ Proof. exact whole_module_spec. Qed.
 Theorem C11_identityref : forall sc r sub fulln s b,
   identityref_base sc r sub fulln s = Some b <->
   exists md e, find (fun m => Bool.eqb (m_sub m) sub && (full_name m =? fulln)) sc = Some md /\
-               resolves sc (dict_get (r_dict r)) (owners_get (r_owners r)) md s e /\ b = did_of e.
+               resolves sc (dict_get (r_dict r)) (owners_get (r_owners r)) None md s e /\ b = did_of e.
 Proof. exact identityref_spec. Qed.
 
 (* ------------------------------------------------------------------ errors *)
@@ -152,28 +166,29 @@ Proof. exact identityref_spec. Qed.
 Theorem C11_no_error_iff : forall sc o2 o3 r, wf_schema sc -> is_oracle o2 -> is_oracle o3 ->
   resolve_identities o2 o3 sc = Some r ->
   (r_errors r = [] <->
-   links_ok sc /\ all_resolve sc (dict_get (r_dict r)) (owners_get (r_owners r)) /\
-   acyclic sc (dict_get (r_dict r)) (owners_get (r_owners r))).
+   links_ok sc /\ all_resolve sc (dict_get (r_dict r)) (owners_get (r_owners r)) (dict_get (r_key_owners r)) /\
+   acyclic sc (dict_get (r_dict r)) (owners_get (r_owners r)) (dict_get (r_key_owners r))).
 Proof. exact errors_none_iff'. Qed.
 
 (* the same without the assumption on the schema, the link errors as the model computes them *)
 Theorem C11_no_error_iff_any : forall sc o2 o3 r, is_oracle o2 -> is_oracle o3 ->
   resolve_identities o2 o3 sc = Some r ->
   (r_errors r = [] <->
-   link_errors sc = [] /\ all_resolve sc (dict_get (r_dict r)) (owners_get (r_owners r)) /\
-   acyclic sc (dict_get (r_dict r)) (owners_get (r_owners r))).
+   link_errors sc = [] /\ all_resolve sc (dict_get (r_dict r)) (owners_get (r_owners r)) (dict_get (r_key_owners r)) /\
+   acyclic sc (dict_get (r_dict r)) (owners_get (r_owners r)) (dict_get (r_key_owners r))).
 Proof. exact errors_none_iff. Qed.
 
 Theorem C11_undefined_base_is_error : forall sc o2 o3 r, is_oracle o2 -> is_oracle o3 ->
   resolve_identities o2 o3 sc = Some r ->
   forall k e s, dict_get (r_dict r) k = Some e -> In s (i_bases (snd e)) ->
-    (~ exists eb, resolves sc (dict_get (r_dict r)) (owners_get (r_owners r)) (fst e) s eb) ->
+    (~ exists eb, resolves sc (dict_get (r_dict r)) (owners_get (r_owners r)) (dict_get (r_key_owners r) k)
+                         (fst e) s eb) ->
     In (ErrBase (did_of e) s) (r_errors r).
 Proof. exact error_undefined_base. Qed.
 
 Theorem C11_cycle_is_error : forall sc o2 o3 r, is_oracle o2 -> is_oracle o3 ->
   resolve_identities o2 o3 sc = Some r ->
-  forall x, derived sc (dict_get (r_dict r)) (owners_get (r_owners r)) x x -> In (ErrCycle x) (r_errors r).
+  forall x, derived sc (dict_get (r_dict r)) (owners_get (r_owners r)) (dict_get (r_key_owners r)) x x -> In (ErrCycle x) (r_errors r).
 Proof. exact error_cycle. Qed.
 
 Theorem C11_missing_link_is_error : forall sc o2 o3 r, wf_schema sc -> is_oracle o2 -> is_oracle o3 ->
@@ -249,7 +264,7 @@ Definition ex_revs : schema := [ex_m1; ex_u; ex_m0; ex_s].
 Example C11_ex_revisions :
   vals_of (resolve_identities ord_id ord_rev ex_revs)
           ["m@2020-01-01:b"; "m@2021-06-15:b"; "m@2021-06-15:d"; "s:x"] =
-  Some ([["m@2020-01-01:c"; "u:uo"]; ["m@2021-06-15:d"; "u:ug"; "u:un"; "u:ux"; "s:x"]; ["u:ug"]; ["u:ux"]], []).
+  Some ([["m@2020-01-01:c"; "u:uo"; "u:ux"; "s:x"]; ["m@2021-06-15:d"; "u:ug"; "u:un"; "u:ux"; "s:x"]; ["u:ug"]; ["u:ux"]], []).
 Proof. vm_compute. reflexivity. Qed.
 
 (* the submodule's identity is filed under both revisions *)
